@@ -421,4 +421,5 @@ RULES = [
 	('10.m', 'restart-time replay of on-chain HTLC failures: waits for maturity; compares a confirmed counterparty commitment (current or previous) with its own HTLC list', lambda F: chainrules.restart_replay_guard(F, '10.m')),
 	('10.d', 'startup-only helpers are reachable only from the restart routine; reconstruction calls exist', r10d),
 	('10.p', 'same-name field transfer: structs carrying this property\'s quantities are filled from the same-named field or a reviewed alias (rules/provenance.py)', lambda F: provenance.for_property(F, 'C10', '10.p')),
+	('10.v', 'field-versus-field comparisons (a received value against a limit, an id against an id) are the reviewed ones: same fields, same operator (rules/provenance.py)', lambda F: provenance.cmps_for_property(F, 'C10', '10.v')),
 ]
